@@ -21,14 +21,14 @@ func (r Result) String() string { return [...]string{"unsat", "sat", "unknown"}[
 
 // Solver is one persistent solver process speaking SMT-LIB2 on stdin/stdout.
 type Solver struct {
-	cmd  *exec.Cmd
-	in   io.WriteCloser
-	out  *bufio.Reader
-	Log  io.Writer // optional transcript
-	Time time.Duration
+	cmd                    *exec.Cmd
+	in                     io.WriteCloser
+	out                    *bufio.Reader
+	Log                    io.Writer // optional transcript
+	Time                   time.Duration
 	NSat, NUnsat, NUnknown int
-	Bin  string
-	TimeoutMs int
+	Bin                    string
+	TimeoutMs              int
 }
 
 func NewSolver(bin string, timeoutMs int) (*Solver, error) {
@@ -211,9 +211,9 @@ func (s *Solver) GetValues(names []string) (map[string]string, error) {
 // ---- tiny s-expression parser ----
 
 type Sexp struct {
-	Atom string
-	Str  bool // atom is a string literal (Atom holds the raw literal including quotes)
-	List []*Sexp
+	Atom   string
+	Str    bool // atom is a string literal (Atom holds the raw literal including quotes)
+	List   []*Sexp
 	IsList bool
 }
 
